@@ -253,7 +253,9 @@ def drv_rescale(D, n, tier):
         for ci in range(n):
             delj = rng.random() < 0.25
             xx, tsf, T, S, frozen, nomut = draw_epoch(rng, nprng, D, mild=delj)
-            if delj and D <= 3:
+            if delj and D <= 3 and ci % 2 == 0:
+                # every other delj case goes through the time-dependent driver; the rest stay all-constant and exercise the
+                # precomputed-coefficient drivers with the Chang-Cooper switch on
                 key = 'nu' if D == 1 else 'nu1'
                 if S[key][0] == 'const':
                     S[key] = ('lambda0', S[key][1])
